@@ -17,7 +17,8 @@ func init() {
 		"(R4) fetchTail cannot start the fetcher unless getRoot, Prepare succeeded, the source grew past `begin`, and verifyConsistency(destination size, destination root, source STH) returned nil; it reports the source tree size only when Run and the shared context are error-free; the submitters run as goroutines (started by fetchTail or by a function only it calls) on that context and on the channel the fetcher callback feeds, a submitter error cancels that context, and the context's Err() verdict is read only after close(batches) and Wait() on the WaitGroup every submitter is counted in (never deferred: a late submitter failure must still be seen); verifyConsistency returns nil without a proof only for an empty destination or NoConsistencyCheck, otherwise the result of proof.VerifyConsistency(hasher, dest size, sth size, proof(dest size, sth size), dest root, sth root); "+
 		"(R5) resume position: continuous ⇒ StartIndex = destination tree size, EndIndex = 0 (clamped to the verified STH by Prepare, C16); begin > StartIndex ⇒ StartIndex = begin; Run threads each pass's result into the next; "+
 		"(R6) AddSequencedLeaves, addSequencedLeaves, buildLogLeaf, runSubmitter, verifyConsistency and fetchTail have no other callers. "+
-		"NOT covered: the destination's state after a run, per-leaf statuses in the AddSequencedLeaves reply, restarts and mastership histories, back-off timing, fetcher cursor discipline (C16), behaviour of the source log and of proof.VerifyConsistency.",
+		"(R10) somebody works: the loops that start the submitter goroutines and the fetch-worker goroutines of the Fetcher.Run fetchTail calls are entered at least once for every value of the configuration fields their counts are computed from that the configuration validator (func(*MigrationConfig) error) accepts — the count is followed from the loop's first test back through struct fields (by allocation site), copies, parameters, constructors and defaults to the configuration message and evaluated for sample values containing every constant it is compared with ±1 and the extremes of its type; the fields on the way are written only into structs their writer allocated; a function whose success the validator gates is called, and its error looked at, before the configuration is handed on (a pass with no worker fails nothing, cancels nothing and reports the tail as transferred with no entry copied). "+
+		"NOT covered: that the validated message is the very one the controllers are built from, negative or huge channel sizes, worker counts of other users of scanner.Fetcher (C16), the destination's state after a run, per-leaf statuses in the AddSequencedLeaves reply, restarts and mastership histories, back-off timing, fetcher cursor discipline (C16), behaviour of the source log and of proof.VerifyConsistency.",
 		runC20)
 }
 
@@ -89,6 +90,9 @@ func runC20(r *Run) {
 	c20UnparsableCopied(r)
 	r.Rule("C20.R9")
 	c20Defaults(r)
+	// somebody works: every fan-out loop of the pass is entered for every accepted configuration (rules_t7c20counts.go)
+	r.Rule("C20.R10")
+	c20Counts(r)
 }
 
 // c20Callers: every module function calling callee matches ownerGlob (closure
